@@ -44,3 +44,44 @@ check("C07", "exploration",
       "payload lengths 0..125 enumerated at three positions.", TRUST,
       "deterministic simulation: seeded histories with short-write injection, global event-order oracle",
       "DESIGN.md section 6 C07")
+check("C09", "fault_enumeration",
+      "connect()/create_connection() against scripted handshake peers: redirect chains 0..5 x limits, every Upgrade / "
+      "Connection / accept / subprotocol variant, and end-of-stream or receive timeout injected at byte positions of the "
+      "response head (every position for reference heads; every position of sampled generated heads in thorough). "
+      "Oracle = independent predicate over what the peers actually received and sent; on failure all sockets closed and "
+      "object unconnected.", TRUST, "deterministic simulation: enumerated + seeded response heads with eof/timeout fault injection at every byte, independent predicate oracle",
+      "DESIGN.md section 6 C09")
+check("C10", "exploration",
+      "URL/option configuration sweep observed at a simulated peer (plain and real-TLS-over-simulated-wire): the bytes "
+      "received before the peer's first reply are parsed by a strict reference HTTP parser, every header is compared with "
+      "the value known by construction, the key with the 16 bytes drawn at the randomness seam during that connect, and "
+      "websockets.ServerProtocol must accept the request. No schedule dimension.", TRUST + " websockets 17.1 as independent server.",
+      "deterministic simulation: configuration sweep observed at a simulated peer, reference-parser + independent-server oracle",
+      "DESIGN.md section 6 C10")
+check("C11", "exploration",
+      "Full configuration grid of the documented sslopt keys and the CA-bundle variable against simulated TLS peers "
+      "(real OpenSSL on both ends over the simulated wire), directly and through a simulated CONNECT proxy; independent "
+      "predicate decides accept/reject; on reject the peer must have decrypted zero application bytes.",
+      TRUST + " OpenSSL 3.0 does the verification; SSLObject<->socket glue (sim/tls.py) is ours; do_handshake_on_connect/suppress_ragged_eofs pass-through not exercised.",
+      "deterministic simulation: exhaustive configuration grid against simulated TLS peers (real OpenSSL over simulated wire)",
+      "DESIGN.md section 6 C11")
+check("C18", "fault_enumeration",
+      "URL grid and malformed variants plus all 340 connect-outcome patterns (accept/refused/unreachable/other) over "
+      "1..4 resolved addresses of mixed families, with sockopt/timeout settings; oracle reads the simulated network log "
+      "(resolver query, dial order, per-socket timeout and option list before connect, closed failed sockets, first wire "
+      "bytes TLS iff wss, request target).", TRUST,
+      "deterministic simulation: exhaustive connect-fault patterns + URL grid, network-log oracle", "DESIGN.md section 6 C18")
+check("C19", "exploration",
+      "Proxy decision sweep: options x environment x scheme x hosts over a small label alphabet (every look-alike "
+      "suffix exists) x CIDR blocks of every prefix length x proxy reply statuses; an independent decision function "
+      "is compared with the address the simulated network saw dialled and with what the simulated proxy received "
+      "(CONNECT line, Host, Basic credentials, nothing after a non-200, TLS/GET inside the tunnel).",
+      TRUST + " SOCKS proxies not exercised (python_socks absent).",
+      "deterministic simulation: exhaustive small-alphabet configuration sweep observed at the simulated network, independent decision oracle",
+      "DESIGN.md section 6 C19")
+check("C20", "exploration",
+      "Histories of 2..6 connections against peers that set cookies with/without Domain in varying case; a reference jar "
+      "predicts the Cookie header of every later handshake; the process-wide jar is reset before each history. All "
+      "(domain form, target, target) triples over 8 domain forms x 10 hosts enumerated.", TRUST,
+      "deterministic simulation: seeded + enumerated connection histories over process-wide state, reference-jar oracle",
+      "DESIGN.md section 6 C20")
